@@ -4,6 +4,8 @@ Property theorems only; helper lemmas live in Dm/Lemmas.
 -/
 import Dm.Lemmas.FmtParse
 import Dm.Lemmas.FmtRoundTrip
+import Dm.Lemmas.FmtSpecRoundTrip
+import Dm.Lemmas.FmtInvert
 
 namespace Dm.Props.C03
 open Dm.Fmt
@@ -19,12 +21,11 @@ theorem implicit_counter_is_std (n : Nat) (ps : List Piece) :
     placeholdersFrom n (formatsOf ps) = meaningFrom n ps :=
   placeholdersFrom_formatsOf n ps
 
-/-- **Round trip, partial** (placeholders without `:format_spec`; the full grammar is compared with
-`rustc_parse_format` exhaustively on short literals by the check, not proved): for every canonical
+/-- **Round trip, spec-less fragment** (kept as the special case that needs neither `Sane2` nor `SpecCanonical`; the
+full statement is `formats_agree` below): for every canonical
 derivation of the std grammar whose placeholders are `{}`, `{N}`, `{name}` (with optional trailing
 whitespace), of any length, derive_more's parser accepts the printed literal and reads exactly the
-derivation's formats. What is missing for the full statement: the `format_spec` productions
-(fill/align ambiguity, the `0` flag vs. width, `x?`). -/
+derivation's formats. -/
 theorem formats_agree_nospec_partial (cc : CharClasses) (hs : Sane cc) (ps : List Piece) (hcan : Canonical ps)
     (hwf : ∀ p ∈ ps, p.WF cc ∧ NoSpec p) :
     formatString cc (renderAll ps) = some (formatsOf ps) := by
@@ -77,6 +78,74 @@ theorem formats_agree_nospec_partial (cc : CharClasses) (hs : Sane cc) (ps : Lis
       simp only
       rw [formatLoop_render cc hs _ _ (by omega) hcan hwf]
 
+/-- **Round trip** (the whole grammar): for every canonical derivation of the std grammar — text, `{{`, `}}` and
+placeholders `{[argument][:[[fill]align][sign]['#']['0'][width]['.' precision][type]][ws]}` of any length — derive_more's
+parser accepts the printed literal and reads exactly the derivation's formats. "Canonical" is std's resolution of the
+grammar's three ambiguities: adjacent texts are one text (`Canonical`), a leading `0` of a width is the zero flag unless
+`$` follows (`SpecA.ZeroCanonical`, part of `WF`), and an empty spec `{:}` directly followed by an alignment character
+reads the `}` as a fill (`SpecCanonical`). -/
+theorem formats_agree (cc : CharClasses) (hs : Sane cc) (h2 : Sane2 cc) (ps : List Piece) (hcan : Canonical ps)
+    (hwf : ∀ p ∈ ps, p.WF cc) (hsc : SpecCanonical ps) :
+    formatString cc (renderAll ps) = some (formatsOf ps) := by
+  unfold formatString
+  cases ps with
+  | nil => simp [renderAll, text_nil, formatLoop, maybeFormat_nil, formatsOf]
+  | cons p rest =>
+    have hrest : ∀ q ∈ rest, q.WF cc := fun q hq => hwf q (by simp [hq])
+    cases p with
+    | text cs =>
+      have hcs : cs ≠ [] ∧ ∀ c ∈ cs, isBrace c = false := hwf (Piece.text cs) (by simp)
+      have hnext : ∀ h t, renderAll rest = h :: t → isBrace h = true := by
+        intro h t e
+        cases rest with
+        | nil => simp [renderAll] at e
+        | cons q qs =>
+          have hled : q.isBraceLed = true := by
+            cases q with
+            | text ds => simp [Canonical] at hcan
+            | _ => rfl
+          obtain ⟨b, t', hb, hbr⟩ := render_head_brace qs q hled
+          rw [hb] at e; cases e; exact hbr
+      have hr : renderAll (Piece.text cs :: rest) = cs ++ renderAll rest := by simp [renderAll, Piece.render]
+      rw [hr, text_stops cs (renderAll rest) hcs.1 hcs.2 hnext]
+      simp only
+      rw [formatLoop_render' cc hs h2 rest _ (by omega) hcan.tail hrest hsc.tail]
+      simp [formatsOf]
+    | lbrace =>
+      have hled : (Piece.lbrace).isBraceLed = true := rfl
+      obtain ⟨b, t, hb, hbr⟩ := render_head_brace rest Piece.lbrace hled
+      have ht : text (renderAll (Piece.lbrace :: rest)) = none := by
+        rw [hb]; simp [text, List.takeWhile, hbr]
+      rw [ht]
+      simp only
+      rw [formatLoop_render' cc hs h2 _ _ (by omega) hcan hwf hsc]
+    | rbrace =>
+      have hled : (Piece.rbrace).isBraceLed = true := rfl
+      obtain ⟨b, t, hb, hbr⟩ := render_head_brace rest Piece.rbrace hled
+      have ht : text (renderAll (Piece.rbrace :: rest)) = none := by
+        rw [hb]; simp [text, List.takeWhile, hbr]
+      rw [ht]
+      simp only
+      rw [formatLoop_render' cc hs h2 _ _ (by omega) hcan hwf hsc]
+    | ph q =>
+      have hled : (Piece.ph q).isBraceLed = true := rfl
+      obtain ⟨b, t, hb, hbr⟩ := render_head_brace rest (Piece.ph q) hled
+      have ht : text (renderAll (Piece.ph q :: rest)) = none := by
+        rw [hb]; simp [text, List.takeWhile, hbr]
+      rw [ht]
+      simp only
+      rw [formatLoop_render' cc hs h2 _ _ (by omega) hcan hwf hsc]
+
+
+/-- … and therefore the placeholders derive_more sees (argument, trait, modifiers) are std's reading of the derivation,
+for the whole grammar. -/
+theorem placeholders_agree (cc : CharClasses) (hs : Sane cc) (h2 : Sane2 cc) (ps : List Piece) (hcan : Canonical ps)
+    (hwf : ∀ p ∈ ps, p.WF cc) (hsc : SpecCanonical ps) :
+    parseFmtString cc (renderAll ps) = meaning ps := by
+  unfold parseFmtString meaning
+  rw [formats_agree cc hs h2 ps hcan hwf hsc]
+  exact placeholdersFrom_formatsOf 0 ps
+
 /-- … and therefore the placeholders derive_more sees (argument, trait, modifiers) are std's reading
 of the derivation. -/
 theorem placeholders_agree_nospec_partial (cc : CharClasses) (hs : Sane cc) (ps : List Piece) (hcan : Canonical ps)
@@ -84,6 +153,19 @@ theorem placeholders_agree_nospec_partial (cc : CharClasses) (hs : Sane cc) (ps 
     parseFmtString cc (renderAll ps) = meaning ps := by
   unfold parseFmtString meaning
   rw [formats_agree_nospec_partial cc hs ps hcan hwf]
+  exact placeholdersFrom_formatsOf 0 ps
+
+/-- **The converse: the parser accepts nothing outside the grammar.** Every literal derive_more's parser accepts is the
+print of a derivation of the std grammar (lexically well-formed: identifiers, indices that fit `usize`, a fill only
+with an alignment, whitespace only before `}`), and the placeholders it reports are std's reading of that
+derivation. No hypothesis on the character tables is needed. -/
+theorem accepted_literals_are_derivations (cc : CharClasses) (s : List Char) (fs : List Format)
+    (h : formatString cc s = some fs) :
+    ∃ ps : List Piece, s = renderAll ps ∧ (∀ p ∈ ps, p.Lex cc) ∧ formatsOf ps = fs ∧ parseFmtString cc s = meaning ps := by
+  obtain ⟨ps, e, hf, hlx⟩ := formatString_inv cc h
+  refine ⟨ps, e, hlx, hf, ?_⟩
+  unfold parseFmtString meaning
+  rw [h, ← hf]
   exact placeholdersFrom_formatsOf 0 ps
 
 /-! Non-vacuity: the hypotheses are satisfiable — ASCII character classes are `Sane`, and a concrete
@@ -130,5 +212,84 @@ example : formatString asciiCC (renderAll exPieces) = some (formatsOf exPieces) 
       · intro a ha; cases ha; exact ⟨by simp, by intro d hd; simp at hd; subst hd; decide, by decide⟩
       · intro s hs; cases hs
       · intro c hc; simp at hc
+
+theorem asciiSane2 : Sane2 asciiCC := by
+  refine ⟨?_, ?_⟩
+  · intro c hc
+    simp only [specials, List.mem_cons, List.mem_nil_iff, or_false] at hc
+    rcases hc with rfl | rfl | rfl | rfl | rfl | rfl | rfl | rfl | rfl | rfl | rfl <;> decide
+  · intro c hc
+    simp only [tyLetters, List.mem_cons, List.mem_nil_iff, or_false] at hc
+    rcases hc with rfl | rfl | rfl | rfl | rfl | rfl | rfl <;> decide
+
+/-- `v={x:*>+#08.p$x}{:.*X? }{:}a{0:<}` as a derivation. -/
+def exSpec1 : SpecA :=
+  { fill := some '*', align := some .right, sign := some .plus, alt := true, zero := true, width := some (.lit ['8']),
+    prec := some (.count (.param (.name ['p']))), ty := .lowerHex }
+def exSpec2 : SpecA :=
+  { fill := none, align := none, sign := none, alt := false, zero := false, width := none, prec := some .star, ty := .upperDebug }
+def exSpec3 : SpecA :=
+  { fill := none, align := none, sign := none, alt := false, zero := false, width := none, prec := none, ty := .display }
+def exSpec4 : SpecA :=
+  { fill := none, align := some .left, sign := none, alt := false, zero := false, width := none, prec := none, ty := .display }
+def exPieces2 : List Piece :=
+  [.text ['v', '='], .ph ⟨some (.name ['x']), some exSpec1, []⟩, .ph ⟨none, some exSpec2, [' ']⟩, .ph ⟨none, some exSpec3, []⟩,
+   .text ['a'], .ph ⟨some (.idx ['0']), some exSpec4, []⟩]
+
+example : String.ofList (renderAll exPieces2) = "v={x:*>+#08.p$x}{:.*X? }{:}a{0:<}" := by decide
+
+example : formatString asciiCC (renderAll exPieces2) = some (formatsOf exPieces2) := by
+  apply formats_agree asciiCC asciiSane asciiSane2
+  · simp [exPieces2, Canonical]
+  · intro p hp
+    simp only [exPieces2, List.mem_cons, List.mem_nil_iff, or_false] at hp
+    rcases hp with rfl | rfl | rfl | rfl | rfl | rfl
+    · exact ⟨by simp, by intro c hc; simp at hc; rcases hc with rfl | rfl <;> decide⟩
+    · refine ⟨?_, ?_, ?_⟩
+      · intro a ha; cases ha; exact Or.inl ⟨by decide, by simp⟩
+      · intro s hs; cases hs
+        refine ⟨(by intro _; rfl), ?_, ?_, ?_⟩
+        · intro w hw; cases hw; exact ⟨by simp, by intro d hd; simp at hd; subst hd; decide, by decide⟩
+        · intro q hq; cases hq; exact Or.inl ⟨by decide, by simp⟩
+        · intro h; cases h
+      · intro c hc; simp at hc
+    · refine ⟨?_, ?_, ?_⟩
+      · intro a ha; cases ha
+      · intro s hs; cases hs
+        refine ⟨(by intro h; cases h), ?_, ?_, ?_⟩
+        · intro w hw; cases hw
+        · intro q hq; cases hq; trivial
+        · intro _; trivial
+      · intro c hc; simp at hc; subst hc; decide
+    · refine ⟨?_, ?_, ?_⟩
+      · intro a ha; cases ha
+      · intro s hs; cases hs
+        refine ⟨(by intro h; cases h), ?_, ?_, ?_⟩
+        · intro w hw; cases hw
+        · intro q hq; cases hq
+        · intro _; trivial
+      · intro c hc; simp at hc
+    · exact ⟨by simp, by intro c hc; simp at hc; subst hc; decide⟩
+    · refine ⟨?_, ?_, ?_⟩
+      · intro a ha; cases ha; exact ⟨by simp, by intro d hd; simp at hd; subst hd; decide, by decide⟩
+      · intro s hs; cases hs
+        refine ⟨(by intro h; cases h), ?_, ?_, ?_⟩
+        · intro w hw; cases hw
+        · intro q hq; cases hq
+        · intro _; trivial
+      · intro c hc; simp at hc
+  · simp only [exPieces2, SpecCanonical, PhA.AlignOk]
+    refine ⟨?_, ?_, ?_, ?_, trivial⟩
+    · intro s hs ha; cases hs; cases ha
+    · intro s hs _ _ hw; cases hw
+    · intro s hs _ _ _ c t e
+      simp [renderAll, Piece.render, PhA.render] at e
+      rw [← e.1]; decide
+    · intro s hs ha; cases hs; cases ha
+
+/-- The excluded derivation really is ambiguous: `{:}<}`-style text reads as fill `}` — the parser (and std) take
+the `}` before `<` as a fill character. -/
+example : (formatString asciiCC "{:}<}".toList).map (fun fs => fs.map (fun f => f.spec.map (·.align)))
+    = some [some (some (some '}', .left))] := by decide
 
 end Dm.Props.C03
